@@ -256,6 +256,24 @@ def addOne (skip : ER → Bool) (dst : List ER) (v : ER) : List ER :=
 
 def addTo (skip : ER → Bool) (dst src : List ER) : List ER := src.foldl (addOne skip) dst
 
+/-- hypothesis of the positive theorem for one value: when the value is going to be inserted (it strictly
+covers some destination it overlaps) it must strictly cover **every** destination it overlaps. -/
+def NoCrossing (dst : List ER) (v : ER) : Prop :=
+  (∃ d ∈ dst, overlap d v = true ∧ cover d v = true) → ∀ d ∈ dst, overlap d v = true → cover d v = true
+
+instance (dst : List ER) (v : ER) : Decidable (NoCrossing dst v) := by unfold NoCrossing; infer_instance
+
+/-- the hypothesis for a whole `add_to` call: `NoCrossing` at every step, against the list as it is then. -/
+def NoCrossingAll (skip : ER → Bool) : List ER → List ER → Prop
+  | _, [] => True
+  | dst, v :: rest => (skip v = false → NoCrossing dst v) ∧ NoCrossingAll skip (addOne skip dst v) rest
+
+instance decNoCrossingAll (skip : ER → Bool) : ∀ (src dst : List ER), Decidable (NoCrossingAll skip dst src)
+  | [], _ => isTrue trivial
+  | v :: rest, dst => by
+    unfold NoCrossingAll
+    exact @instDecidableAnd _ _ _ (decNoCrossingAll skip rest _)
+
 /-! ## `AbstractNumberWithUnitModel.parse`: the `b_add` filter inside the nested loops -/
 
 /-- a parse result as the filter sees it (`end = start + length - 1` is computed by `modelEnd`). -/
